@@ -123,7 +123,26 @@ def _correspondence_once(ctx, rep=0):
         if not S.side_conditions(fam, tails, K, cfg):
             ctx.proof_broken.append('side conditions of Properties.C09.knots_valid fail for the defaults read from the code: %s %s' % (fam, cfg))
         for (inverse, xin, flatp, kinds, A) in run_config(ctx, fam, tails, K, regime, box, B, gen, extra=extra):
+            # usage order: a single-precision call with the same bin count comes first (state kept between calls must not leak a dtype)
+            k32, y32, _ = S.impl_call(fam, xin.float(), [p.float() for p in flatp], inverse, tails,
+                                      box, B, extra=extra)
+            if k32 == 'ok' and y32.dtype != torch.float32:
+                ctx.disagree('spline/' + fam, {'fam': fam, 'tails': tails, 'K': K, 'inverse': inverse}, str(y32.dtype), 'float32', 'float32 inputs returned another dtype')
             kind, y, ld = S.impl_call(fam, xin, flatp, inverse, tails, box, B, extra=extra)
+            # same values as a dense non-contiguous 2-D tensor: same function
+            if kind == 'ok' and A > 1 and xin.numel() // A > 1:
+                xn = xin.reshape(-1, A).t().contiguous().t()
+                pn = [q.reshape(xn.shape[0], A, -1) for q in flatp]
+                kn_, yn, ldn = S.impl_call(fam, xn, pn, inverse, tails, box, B, extra=extra)
+                bad = kn_ != 'ok'
+                if not bad:
+                    cnd = 1e-12 * torch.exp(ld.abs().clamp(max=60)) * (1 + xin.abs())
+                    fin = torch.isfinite(y) & torch.isfinite(ld)
+                    bad = tuple(yn.shape) != tuple(xn.shape) or bool((((yn.reshape(-1) - y).abs() > 2e-9 * (1 + y.abs()) + cnd) & fin).any()) \
+                        or bool((((ldn.reshape(-1) - ld).abs() > 1e-6 * (1 + ld.abs()) + 1e3 * cnd) & fin).any())
+                if bad:
+                    ctx.disagree('spline/' + fam, {'fam': fam, 'tails': tails, 'K': K, 'regime': regime, 'inverse': inverse, 'layout': 'noncontiguous'},
+                                 kn_, kind, 'the same values passed as a dense non-contiguous tensor give a different result')
             reqs.append(S.model_req(fam, xin, flatp, inverse, tails, box, B, cfg=extra))
             metas.append((fam, tails, K, regime, (box, tuple(sorted((extra or {}).items()))), B, inverse, xin, kinds, A, kind, y))
     resps = leandriver.call(reqs)
@@ -180,9 +199,24 @@ def oracle_config(ctx, fam, tails, K, regime, box, B, extra, gen, npts=64):
                       torch.nextafter(kn, -inf).clamp(lo, hi)])
     grid = torch.sort(grid).values
     fl = [p.expand(grid.numel(), -1) for p in params]
+    # usage order: single precision first, both directions (state kept between calls must not leak a dtype or values)
+    for inv32 in (False, True):
+        k32, y32, _ = S.impl_call(fam, (torch.linspace(bot, top, 8) if inv32 else torch.linspace(lo, hi, 8)).float(),
+                                  [p.float().expand(8, -1) for p in params], inv32, tails, box, B, extra=extra)
     kind, y, ld = S.impl_call(fam, grid, fl, False, tails, box, B, extra=extra)
     case = {'fam': fam, 'tails': tails, 'K': K, 'regime': regime, 'box': box, 'tail_bound': B, 'extra': extra,
             'params_bits': [bits.tensor_bits(p) for p in params]}
+    if kind == 'ok' and not (fam == 'quad' and tails and K == 1):
+        # the same points as a dense non-contiguous 2-D tensor
+        n2 = grid.numel() // 2
+        xn = grid[:2 * n2].reshape(2, n2).t().contiguous().t()
+        kn_, yn, ldn = S.impl_call(fam, xn, [p.expand(2, n2, -1) for p in params], False, tails, box, B, extra=extra)
+        if kn_ != 'ok' or (torch.isfinite(y).all() and ((yn.reshape(-1) - y[:2 * n2]).abs().max() > 1e-7 * (1 + abs(top) + abs(bot))
+                                                          or (torch.isfinite(ld).all() and (ldn.reshape(-1) - ld[:2 * n2]).abs().max() > 1e-5))):
+            j = 0 if kn_ != 'ok' else int(torch.argmax((yn.reshape(-1) - y[:2 * n2]).abs() + (ldn.reshape(-1) - ld[:2 * n2]).abs()))
+            ctx.fail('a dense non-contiguous input tensor gives a different result (%s): x=%r contiguous f(x)=%r, non-contiguous %r'
+                     % (kn_, grid[j].item(), y[j].item(), None if kn_ != 'ok' else yn.reshape(-1)[j].item()),
+                     dict(case, x=grid[j].item(), layout='t().contiguous().t()'), match={'fam': fam, 'symptom': 'layout'}); return
     if fam == 'quad' and tails and K == 1:
         return  # known finding F27 (listed under C17): constructed without complaint, every call raises IndexError
     if kind != 'ok':
